@@ -3670,7 +3670,9 @@ def decode_signed_value(
     if version < min_version:
         return None
     if version == 1:
-        assert not isinstance(secret, dict)
+        if isinstance(secret, dict):
+            # Key-versioned secrets only exist in the v2 format.
+            return None
         return _decode_signed_value_v1(secret, name, value, max_age_days, clock)
     elif version == 2:
         return _decode_signed_value_v2(secret, name, value, max_age_days, clock)
@@ -3692,7 +3694,12 @@ def _decode_signed_value_v1(
     if not hmac.compare_digest(parts[2], signature):
         gen_log.warning("Invalid cookie signature %r", value)
         return None
-    timestamp = int(parts[1])
+    try:
+        timestamp = int(parts[1])
+    except ValueError:
+        # The v1 signature does not cover the field delimiters, so a
+        # correctly-signed value can have a non-numeric timestamp field.
+        return None
     if timestamp < clock() - max_age_days * 86400:
         gen_log.warning("Expired cookie %r", value)
         return None
